@@ -55,7 +55,7 @@ fn factorial(k: usize) -> usize {
     (1..=k).product()
 }
 
-fn dict_programs(k: usize) -> Space<(String, usize)> {
+pub fn dict_programs(k: usize) -> Space<(String, usize)> {
     // ordered selections of k distinct keys
     let keys: Space<usize> = Space::of((0..KEYS.len()).collect());
     let sel = keys.seq_exact(k).filter_collect(|v| {
